@@ -224,6 +224,30 @@ impl<'tcx> Cg<'tcx> {
     }
 }
 
+// layouts of the type arguments of monomorphic instances of the zero-copy entry points
+fn targs_layout<'tcx>(tcx: TyCtxt<'tcx>, n: &Node<'tcx>) -> String {
+    if !Cg::is_mono(n.args) {
+        return "null".into();
+    }
+    let Some(name) = tcx.opt_item_name(n.did) else { return "null".into() };
+    let name = name.to_string();
+    let pats = std::env::var("FV_LAYOUT_FNS").unwrap_or_else(|_| "read_ref_at,read_array,cast_slice,from_bytes,alloc_slice,try_cast_slice_mut,try_cast_slice,try_from_bytes".into());
+    if !pats.split(',').any(|p| p == name) {
+        return "null".into();
+    }
+    let mut out: Vec<String> = Vec::new();
+    for ga in n.args.iter() {
+        if let Some(t) = ga.as_type() {
+            let env = TypingEnv::fully_monomorphized();
+            let r = std::panic::catch_unwind(std::panic::AssertUnwindSafe(|| tcx.layout_of(env.as_query_input(t))));
+            if let Ok(Ok(l)) = r {
+                out.push(format!("[{},{},{}]", s(&crate::mirdump::ty_str(t)), l.size.bytes(), l.align.abi.bytes()));
+            }
+        }
+    }
+    format!("[{}]", out.join(","))
+}
+
 pub fn dump_callgraph<'tcx>(tcx: TyCtxt<'tcx>, krate: &str, out: &mut Vec<u8>) {
     let ws: Vec<String> = std::env::var("FV_CRATES").unwrap_or_default().split(',').map(|x| x.to_string()).collect();
     let mut cg = Cg { tcx, ws, ids: HashMap::new(), nodes: Vec::new(), work: Vec::new(), edges: Vec::new(), ext_calls: Vec::new() };
@@ -258,6 +282,7 @@ pub fn dump_callgraph<'tcx>(tcx: TyCtxt<'tcx>, krate: &str, out: &mut Vec<u8>) {
             ("has_body", b(cg.body_of(n.did).is_some())),
             ("file", s(&l.file)),
             ("line", l.line.to_string()),
+            ("targs", targs_layout(tcx, n)),
         ]));
     }
     let mut e = String::with_capacity(cg.edges.len() * 24);
